@@ -368,7 +368,7 @@ def run_case(mod, sc, case, stats, tier, findings, raise_known=False, record=Tru
     return ctx
 
 
-def run_shard(prop, tier, seed, only=None, budget_scale=1.0, shrink_seconds=None):
+def run_shard(prop, tier, seed, only=None, budget_scale=1.0, shrink_seconds=None, shard=(0, 1)):
     """Run all sub-checks of a property in this process. Returns dict(stats, violation)."""
     import hypothesis
     from hypothesis import given, settings, HealthCheck, Phase
@@ -384,7 +384,22 @@ def run_shard(prop, tier, seed, only=None, budget_scale=1.0, shrink_seconds=None
         if only and sc.name not in only:
             continue
         n = sc.quick if tier == "quick" else sc.thorough
-        n = max(1, int(n * budget_scale))
+        nf = n * budget_scale
+        if nf >= 2:
+            n = int(nf)
+        else:
+            # tiny budgets (expensive size-regime cases): the first example Hypothesis generates is always the simplest one, the
+            # same in every shard. Instead of running it once per shard, the stated total is given to few shards, each with
+            # one example more than its share (the simplest + random ones).
+            k, nsh = shard
+            if tier == "quick":
+                total = max(1, int(round(nf * nsh)))
+                used = max(1, total // 2)
+                if k >= used:
+                    continue
+                n = 1 + -(-total // used)
+            else:
+                n = 2
         best = {"v": None, "case": None, "size": None, "t0": None}
 
         def test(case):
@@ -425,7 +440,8 @@ def run_shard(prop, tier, seed, only=None, budget_scale=1.0, shrink_seconds=None
 
 
 def _shard_entry(args):
-    prop, tier, seed, only, scale = args
+    prop, tier, seed, only, scale = args[:5]
+    shard = args[5] if len(args) > 5 else (0, 1)
     try:
         # a runaway allocation inside the code under test must surface as MemoryError in the case (-> a violation with a
         # replay), not as a killed worker
@@ -437,7 +453,7 @@ def _shard_entry(args):
     except Exception:
         pass
     try:
-        return run_shard(prop, tier, seed, only, scale)
+        return run_shard(prop, tier, seed, only, scale, shard=shard)
     except BaseException as e:
         return {"stats": Stats().to_dict(), "violation": None,
                 "harness_error": "".join(traceback.format_exception(type(e), e, e.__traceback__))}
@@ -498,9 +514,9 @@ def main_check(prop, tier, only=None, nshards=None, scale=1.0):
     # every shard runs the full per-sub-check budget divided by the number of quick shards, so that
     # quick = stated budget in total; thorough = 16 shards x stated thorough budget
     if tier == "quick":
-        jobs = [(prop, tier, seed * 1009 + k, only, scale / nshards) for k in range(nshards)]
+        jobs = [(prop, tier, seed * 1009 + k, only, scale / nshards, (k, nshards)) for k in range(nshards)]
     else:
-        jobs = [(prop, tier, seed * 1009 + k, only, scale) for k in range(nshards)]
+        jobs = [(prop, tier, seed * 1009 + k, only, scale, (k, nshards)) for k in range(nshards)]
     if nshards == 1:
         results = [_shard_entry(jobs[0])]
     else:
